@@ -259,7 +259,7 @@ var ticks atomic.Int64
 // bubble time.Now is the simulated clock.)
 func Tick() { ticks.Add(1) }
 
-const hangLimit = 90 * time.Second
+const hangLimit = 45 * time.Second
 
 func startWatchdog(env *Env) {
 	if !Watchdog || os.Getenv("VERIF_WATCHDOG") == "0" {
